@@ -873,7 +873,8 @@ Proof.
     cbn [is_submit_or_gen].
     destruct kd, res as [j|]; in_cks H; auto.
     all: try (exfalso; destruct Hk as [-> | [-> | ->]]; discriminate).
-    all: match goal with E : _ || _ = false |- _ => destruct (T E) end; auto.
+    all: try (match goal with E : negb (qcode_eqb (qcode p) QERROR) || dry c = false |- _ => destruct (T E) end; auto; fail).
+    all: try (exfalso; exact H).
 Qed.
 
 (** end of poll: 203 iff the status contradicts the query code; 202 iff rows changed after a failed query *)
